@@ -431,6 +431,61 @@ func (c *c17Case) runPath(ctx *core.Ctx) {
 			got, gok := st.Resolve(p)
 			if gok != ok || (ok && fmt.Sprintf("%#v", got) != fmt.Sprintf("%#v", cur)) {
 				ctx.Violation("path-resolution", syn+"/"+kindChain(val, steps), stepClass(steps), fmt.Sprintf("value %s path %q: got (%#v, %v) want (%#v, %v)", c.Value, p, got, gok, cur, ok))
+				continue
+			}
+			if syn != "dotted" {
+				continue
+			}
+			// the typed accessors and ForEach agree with Resolve on the same path
+			kc := kindChain(val, steps)
+			gs, gsok := st.GetString(p)
+			if !ok && gsok {
+				ctx.Violation("accessor", "GetString/"+kc, "absent-path", fmt.Sprintf("value %s path %q: Resolve absent but GetString = %q, true", c.Value, p, gs))
+			}
+			if ok {
+				rv := reflect.ValueOf(cur)
+				switch rv.Kind() {
+				case reflect.String:
+					if !gsok || gs != rv.String() {
+						ctx.Violation("accessor", "GetString/"+kc, "string", fmt.Sprintf("value %s path %q: GetString = %q, %v; Resolve gives %#v", c.Value, p, gs, gsok, cur))
+					}
+				case reflect.Int, reflect.Int8, reflect.Int16, reflect.Int32, reflect.Int64:
+					if gi, giok := st.GetInt(p); !giok || int64(gi) != rv.Int() {
+						ctx.Violation("accessor", "GetInt/"+kc, "int", fmt.Sprintf("value %s path %q: GetInt = %d, %v; Resolve gives %#v", c.Value, p, gi, giok, cur))
+					}
+					if !gsok || gs != fmt.Sprint(cur) {
+						ctx.Violation("accessor", "GetString/"+kc, "int", fmt.Sprintf("value %s path %q: GetString = %q, %v; Resolve gives %#v", c.Value, p, gs, gsok, cur))
+					}
+				case reflect.Slice, reflect.Array:
+					var seen []string
+					_ = st.ForEach(p, func(i int, v any) error {
+						seen = append(seen, fmt.Sprintf("%d=%#v", i, v))
+						return nil
+					})
+					var want []string
+					for i := 0; i < rv.Len(); i++ {
+						want = append(want, fmt.Sprintf("%d=%#v", i, rv.Index(i).Interface()))
+					}
+					if strings.Join(seen, ",") != strings.Join(want, ",") {
+						ctx.Violation("accessor", "ForEach/"+kc, "sequence", fmt.Sprintf("value %s path %q: ForEach visits %v, the value is %#v", c.Value, p, seen, cur))
+					}
+					if rv.Kind() == reflect.Slice {
+						if sl, slok := st.GetSlice(p); !slok || len(sl) != rv.Len() {
+							ctx.Violation("accessor", "GetSlice/"+kc, "slice", fmt.Sprintf("value %s path %q: GetSlice = %v, %v; the value is %#v", c.Value, p, sl, slok, cur))
+						}
+					}
+				case reflect.Map:
+					if m, isAny := cur.(map[string]any); isAny {
+						if gm, gmok := st.GetMap(p); !gmok || len(gm) != len(m) {
+							ctx.Violation("accessor", "GetMap/"+kc, "map", fmt.Sprintf("value %s path %q: GetMap = %v, %v; the value is %#v", c.Value, p, gm, gmok, cur))
+						}
+					}
+					n := 0
+					_ = st.ForEach(p, func(i int, v any) error { n++; return nil })
+					if n != rv.Len() {
+						ctx.Violation("accessor", "ForEach/"+kc, "map", fmt.Sprintf("value %s path %q: ForEach visits %d entries of %d", c.Value, p, n, rv.Len()))
+					}
+				}
 			}
 		}
 	}
@@ -508,7 +563,7 @@ func init() {
 		ID:    "C17",
 		Level: "model_checking",
 		Rule: "history part: explicit-state search over all sequences of {Push(nil), Push({a}), Push({b,g}), Pop, Set a/b/F/g, Set(a, nil), Push({g: nil, F: nil}), Push(a map the caller keeps and pushes again), Copy, swap active stack} up to the bound, for root data nil / map / struct / *struct, replayed on a fresh Stack with a deterministic LIFO pool; after every operation Lookup, Resolve, GetString and EnvMap of 5 names (incl. a struct field name and a JSON tag) are compared with a list-of-maps reference model and the inactive copy must be unchanged. " +
-			"path part: every path of <=3 steps over 9 step names in 3 syntaxes into every nested value of depth <=3 over 11 container/leaf kinds, against ordinary Go indexing by reflection. non-trivial = all",
+			"path part: every path of <=3 steps over 9 step names in 3 syntaxes into every nested value of depth <=3 over 11 container/leaf kinds, against ordinary Go indexing by reflection; GetString / GetInt / GetSlice / GetMap / ForEach on the same path agree with what Resolve returned. non-trivial = all",
 		Bounds:      map[string]string{"quick": "histories of <=5 operations; paths of <=3 steps into values nested <=3 deep", "thorough": "histories of <=7 operations; same paths"},
 		Assumptions: []string{"Pop without a matching Push is unconstrained", "a present key whose value is nil and maps with non-string keys are unconstrained", "the Go name of a JSON-tagged root field is not queried in the history part (recorded finding of C08)"},
 		Decode:      core.DecodeAs[c17Case](),
